@@ -205,6 +205,9 @@ def gen_library_history(rng, schema, n_ops, rich_tracks=2, hostile=False):
             push(FO.gen_crate_op(rng, st, hostile=hostile))
         elif r < 0.72:
             push(FO.gen_track_create(rng, st, rich=rng.random() < 0.5))
+        elif r < 0.76 and schema.startswith("2."):
+            # a chain re-linked by a foreign writer (Engine DJ re-ordering a list): harness SQL, not a library call
+            push(FO.gen_foreign_reorder(rng, st))
         else:
             push(FO.gen_membership_op(rng, st))
     return ops, metas
